@@ -191,7 +191,7 @@ class IntegralMonitor:
 
 def run(ctx):
     fl = import_library()
-    nsets = ctx.scale(700, 10_000)
+    nsets = ctx.scale(700, 50_000)
     ctx.rule = (
         f"every IntegralDefuzzifier.defuzzify call observed. Workload: {nsets} aggregated sets of 0-5 activated shape terms (any implication / "
         "aggregation operator, degrees incl. 0 and 1, clipped plateaus producing ties, repeated terms), scalar and batch degrees (N<=6), "
